@@ -39,11 +39,11 @@ Definition show_wt (c : cfg) (s : slice) (w : vname) (i : nat) (v : N) : string 
             end
           else "na"
       | Ok None => "na"
-      | Err _ => "err:any"
+      | Err _ => "err:view"
       | Panic => "panic"
       | Fuel => "fuel"
       end
-  | Err _ => "err:any"
+  | Err e => show_errclass e
   | Panic => "panic"
   | Fuel => "fuel"
   end.
@@ -71,7 +71,7 @@ Definition dispatch (kind : string) (args : list string) : string :=
                (whether they accept the same frames is C02's matter, not C16's) *)
             let m := show_alias c (of_bytes_cap b spare) in
             let r := show_alias_ref b in
-            out3 m (if String.eqb m "err:any" || String.eqb m "panic" || String.eqb r "err:any" then "-" else r) "-"
+            out3 m (if String.prefix "err:" m || String.eqb m "panic" || String.prefix "err:" r then "-" else r) "-"
         | _, _, _ => BADARGS
         end
     | _ => BADARGS
